@@ -5,6 +5,8 @@
      old     FsModel state of the root before the merge, extended with a field
                links : set of [t, abs, ext, comps]   lexical decomposition of every symlink target string
                        (abs: starts at the abstract root; ext: leaves the abstract root = unresolvable here)
+               mounts : set of canonical directory paths that are mount points: a hard link is possible
+                       only between names on the same filesystem ("hardlinked where possible")
      cset    sequence of entries [path, type \in {"file","dir","sym","fifo"}, cid, size, mode, uid, gid,
              mtime, target, grp]   (grp # 0: files that shared an inode in the source)
      offset  path of the target directory (<<>> = none)
@@ -107,14 +109,18 @@ DirStep(x, k, e, L) ==
                     ELSE Bad(x, "unspecified", "dir-over-odd-symlink")
                ELSE Bad(x, "error", "dir-over-nondir")
 
-\* an earlier placed member of the same source inode
-Mate(x, cset, k) ==
+\* the filesystem a canonical path lives on = the deepest mount point above it (<<>> = the root filesystem)
+DevOf(s, p) == LET ms == {m \in s.mounts : IsPrefix(m, p)} IN
+               IF ms = {} THEN <<>> ELSE CHOOSE m \in ms : \A n \in ms : Len(n) <= Len(m)
+\* an earlier placed member of the same source inode that lives on the same filesystem as q
+Mate(x, cset, k, q) ==
   {j \in DOMAIN x.place : /\ x.place[j].kind = "new" /\ cset[j].type = "file" /\ cset[j].grp = cset[k].grp
-                          /\ SameAttrs(cset[j], cset[k]) /\ cset[j].cid = cset[k].cid}
+                          /\ SameAttrs(cset[j], cset[k]) /\ cset[j].cid = cset[k].cid
+                          /\ DevOf(x.s, x.place[j].p) = DevOf(x.s, q)}
 PlaceObj(x, cset, k, s1, q) ==
   LET e == cset[k] IN
-  IF e.type = "file" /\ e.grp # 0 /\ Mate(x, cset, k) # {}
-  THEN Link(s1, x.place[CHOOSE j \in Mate(x, cset, k) : TRUE].p, q).s
+  IF e.type = "file" /\ e.grp # 0 /\ Mate(x, cset, k, q) # {}
+  THEN Link(s1, x.place[CHOOSE j \in Mate(x, cset, k, q) : TRUE].p, q).s
   ELSE PlaceNew(s1, q, e)
 
 ObjStep(x, cset, k, L) ==
@@ -253,7 +259,8 @@ JudgeCrash(x, cset, offset, old, obs) ==
 InitFs(e) == [names |-> {[path |-> e.names[k].path, ino |-> e.names[k].ino] : k \in DOMAIN e.names},
               inodes |-> [k \in DOMAIN e.inodes |-> [MkObj(e.inodes[k]) EXCEPT !.mtime = e.inodes[k].mtime]],
               handles |-> {},
-              links |-> {e.links[k] : k \in DOMAIN e.links}]
+              links |-> {e.links[k] : k \in DOMAIN e.links},
+              mounts |-> {e.mounts[k] : k \in DOMAIN e.mounts}]
 
 SysStep(s, e) ==
   CASE e.op = "open"      -> Open(s, e.p, e.h, e.created, e.truncated, e.obj)
@@ -283,7 +290,7 @@ SnapFs(snap, links) ==
       inodes |-> [g \in 1..n |-> [type |-> row(g).obj.type, cid |-> row(g).obj.cid, size |-> row(g).obj.size,
                                   mode |-> row(g).obj.mode, uid |-> row(g).obj.uid, gid |-> row(g).obj.gid,
                                   mtime |-> row(g).obj.mtime, target |-> row(g).obj.target]],
-      handles |-> {}, links |-> links]
+      handles |-> {}, links |-> links, mounts |-> {}]
 
 \* model == real snapshot (proves the recorder missed nothing); result: set of <<clause, path>>
 ModelVsSnap(m, sn) ==
